@@ -24,6 +24,8 @@ import (
 
 const unit = 40 * time.Millisecond
 
+var errDialPanic = errors.New("Dial panicked")
+
 type timeoutErr struct{}
 
 func (timeoutErr) Error() string   { return "i/o timeout" }
@@ -312,6 +314,11 @@ func dialcOnce(a []string) string {
 		}
 		ch := make(chan res, 1)
 		go func() {
+			defer func() {
+				if p := recover(); p != nil {
+					ch <- res{errDialPanic}
+				}
+			}()
 			u := "ws://example.com/x"
 			if hsF[0] == "neverT" {
 				// TLS (the default TLSClient over the scripted conn): the peer never answers the ClientHello
@@ -367,6 +374,8 @@ func dialcOnce(a []string) string {
 		switch {
 		case r.err == nil:
 			cls = "nil"
+		case r.err == errDialPanic:
+			cls = "panic"
 		case errors.Is(r.err, context.Canceled):
 			cls = "canceled"
 		case errors.Is(r.err, context.DeadlineExceeded):
@@ -432,6 +441,9 @@ func genC20(tier string, r *rng) {
 	for _, k := range []c{
 		{"0", "0", "cancel:2", "0", "neverD", "0"}, {"0", "0", "deadline:2", "0", "neverD", "0"}, {"0", "2", "none", "0", "neverD", "0"},
 		{"1", "2", "none", "0", "neverD", "0"}, {"0", "7", "cancel:3", "1", "neverD", "0"},
+		// ... and the limit reached while NetDial is still connecting (it then returns no conn, only the error)
+		{"0", "0", "cancel:2", "never", "neverD", "0"}, {"0", "0", "deadline:2", "never", "neverD", "0"}, {"0", "2", "none", "never", "neverD", "0"},
+		{"1", "2", "none", "never", "neverD", "0"}, {"0", "0", "cancel:1", "3", "neverD", "0"},
 	} {
 		run(fmt.Sprintf("dialc %s %s %s %s %s %s", k.bg, k.timeout, k.ctx, k.dial, k.hs, k.fail))
 	}
